@@ -620,6 +620,9 @@ func (g *gctx) stmt() (*Stmt, bool) {
 		}
 		return g.aliasIdiom(), false
 	}
+	if g.o.Arrays && len(g.loops) == 0 && g.ifDepth%100 == 0 && g.chance(4, "nestedarridiom") {
+		return g.nestedArrayIdiom(), false
+	}
 	if (g.o.Structs || g.o.Arrays) && len(g.loops) == 0 && g.chance(5, "storelitidiom") {
 		if st := g.storeLiteralIdiom(); st != nil {
 			return st, false
@@ -694,7 +697,7 @@ func (g *gctx) stmt() (*Stmt, bool) {
 		nv.v.Dyn = true
 		return &Stmt{K: SOpAssign, Name: nv.name, Op: op, E: e}, false
 	case k < 64 && g.o.Arrays: // array element assignment / declaration
-		c := g.assignable(func(t Type) bool { return t.K == KArray })
+		c := g.assignable(func(t Type) bool { return t.K == KArray && t.E.IsInt() })
 		if len(c) == 0 || g.chance(30, "newarr") {
 			T := Array(g.arrayLen(), g.pickType("elemtype"))
 			name := g.fresh()
@@ -846,6 +849,47 @@ func (g *gctx) declAggregate(name string, T Type) *Stmt {
 		if g.fn.Name == "main" && g.ifDepth%100 == 0 {
 			g.sink = append(g.sink, named{t, g.top()[t]})
 		}
+	}
+	return first
+}
+
+// nestedArrayIdiom emits
+//
+//	var mN [R][C]T
+//	mN[i][j] = <dynamic>          (two element stores, outer index mostly non-zero)
+//	mN[i2][j2] = <dynamic>
+//	vB := (mN[i][j] + mN[i2][j2]) ^ mN[0][j]
+//
+// element stores into an array of arrays.
+func (g *gctx) nestedArrayIdiom() *Stmt {
+	T := g.pickType("nestedelem")
+	rows, cols := g.intn(2, 3, "rows"), g.intn(2, 3, "cols")
+	inner := Array(cols, T)
+	MT := Array(rows, inner)
+	m := g.fresh()
+	g.top()[m] = &varInfo{T: MT}
+	first := &Stmt{K: SVar, Name: m, T: &MT}
+	i, j := g.intn(1, rows-1, "ni"), g.intn(0, cols-1, "nj")
+	i2, j2 := g.intn(0, rows-1, "ni2"), g.intn(0, cols-1, "nj2")
+	if i2 == i && j2 == j {
+		j2 = (j + 1) % cols
+	}
+	e1, _ := g.expr(T, true)
+	e2, _ := g.expr(T, true)
+	g.pending = append(g.pending, &Stmt{K: SSetIndex, Name: m, Idx: i, Idx2: j + 1, E: e1})
+	g.pending = append(g.pending, &Stmt{K: SSetIndex, Name: m, Idx: i2, Idx2: j2 + 1, E: e2})
+	el := func(r, c int) *Expr {
+		row := &Expr{Op: EIndex, T: inner, Idx: r, A: []*Expr{{Op: EVar, T: MT, Name: m}}}
+		return &Expr{Op: EIndex, T: T, Idx: c, A: []*Expr{row}}
+	}
+	vb := g.fresh()
+	e := &Expr{Op: EBin, T: T, Name: "^", A: []*Expr{
+		{Op: EBin, T: T, Name: "+", A: []*Expr{g.dynSource(T), {Op: EBin, T: T, Name: "+", A: []*Expr{el(i, j), el(i2, j2)}}}},
+		el(0, j)}}
+	g.top()[vb] = &varInfo{T: T, Dyn: true}
+	g.pending = append(g.pending, &Stmt{K: SDefine, Name: vb, E: e})
+	if g.fn.Name == "main" {
+		g.sink = append(g.sink, named{vb, g.top()[vb]})
 	}
 	return first
 }
